@@ -38,9 +38,11 @@ def compare_outputs(c_out, m_out):
 # ------------------------------------------------------------------------------------------------ generators
 def ints(rng, n, lo=-50, hi=50): return [rng.randint(lo, hi) for _ in range(n)]
 
-def base(rng, n, kinds=('array', 'list', 'tuple', 'table', 'tree', 'rtree', 'range')):
-    """a container expression with exactly n elements (distinct tuple ids: repeated ids are known finding F13)"""
+def base(rng, n, kinds=('array', 'list', 'tuple', 'table', 'tree', 'rtree', 'range', 'mlist', 'marray', 'mtable', 'mtree')):
+    """a container expression with exactly n elements (distinct tuple ids: repeated ids are known finding F13);
+    m… = a container that reaches n elements through a history of mutations"""
     k = rng.choice(kinds)
+    if k in ('mlist', 'marray', 'mtable', 'mtree'): return mut_base(rng, n, k[1:])
     if k in ('array', 'list'): return f"({k} {' '.join(map(str, ints(rng, n)))})".replace(' )', ')')
     if k == 'tuple': return f"(tuple {' '.join(map(str, rng.sample(range(2000), n)))})".replace(' )', ')')
     if k == 'table':
@@ -121,6 +123,116 @@ def any_view(rng, depth, n):
     e, hl = any_view(rng, depth - 1, n)
     return f'(map {e} {rng.randint(-3, 3)} {rng.randint(-5, 5)})', hl
 
+
+# ------------------------------------------------------------------------------------------------ mutated containers
+def sim_seq(kind, vals, op):
+    """documented meaning of one mutation of a List / Array on a python list (in place); an invalid one changes nothing"""
+    n = len(vals); h = op[0]
+    if h == 'push': vals.append(op[1])
+    elif h == 'pop':
+        if n: vals.pop()
+    elif h == 'push_at':
+        v, i = op[1], op[2]
+        if kind == 'list':
+            if i == 0: vals.insert(0, v)
+            else:
+                j = i + n if i < 0 else i
+                if 0 <= j < n: vals.insert(j, v)
+        else:
+            j = i + n + 1 if i < 0 else i
+            if 0 <= j <= n: vals.insert(j, v)
+    elif h == 'pop_at':
+        j = op[1] + n if op[1] < 0 else op[1]
+        if 0 <= j < n: del vals[j]
+    elif h == 'rem':
+        if op[1] in vals: vals.remove(op[1])
+    elif h == 'put':
+        j = op[1] + n if op[1] < 0 else op[1]
+        if 0 <= j < n: vals[j] = op[2]
+    elif h == 'concat': vals.extend(op[1:])
+    elif h == 'resize':
+        m = op[1]
+        if m < n: del vals[m:]
+        elif kind == 'list': vals.extend([0] * (m - n))
+
+def sim_keyed(kind, keys, op):
+    h = op[0]
+    if h == 'set':
+        if op[1] not in keys: keys.append(op[1])
+    elif h == 'rem':
+        if op[1] in keys: keys.remove(op[1])
+    elif h == 'resize':
+        if op[1] == 0: del keys[:]
+
+def op_str(op): return '(' + ' '.join(str(x) for x in op) + ')'
+def mut_str(kind, init, ops):
+    return f"(mut {kind} ({' '.join(map(str, init))})" + ''.join(' ' + op_str(o) for o in ops) + ')'
+
+def rand_sop(rng, kind, vals, wild=0.15):
+    """a random mutation of a List / Array holding `vals`: mostly valid, at and around the boundaries; `wild`: invalid ones"""
+    n = len(vals)
+    def idx(extra=0):      # an index: head, tail, middle, negative, just outside
+        if rng.random() < wild: return rng.choice([n + extra, n + extra + 1, -n - 1 - extra, -n - 2 - extra, 99, -99])
+        if n + extra == 0: return 0
+        return rng.choice([0, 0, n + extra - 1, -1, -(n + extra), rng.randrange(n + extra), -rng.randint(1, n + extra)])
+    v = rng.randint(0, 9)
+    r = rng.random()
+    if r < 0.14: return ('push', v)
+    if r < 0.24: return ('pop',)
+    if r < 0.40: return ('push_at', v, idx(1 if kind == 'array' else 0))
+    if r < 0.58: return ('pop_at', idx())
+    if r < 0.72: return ('rem', rng.choice(vals) if vals and rng.random() > wild else rng.randint(0, 12))
+    if r < 0.80: return ('put', idx(), v)
+    if r < 0.88: return ('concat',) + tuple(rng.randint(0, 9) for _ in range(rng.randint(0, 3)))
+    return ('resize', rng.choice([0, 0, n, max(0, n - 1), max(0, n - 2), n + 1, n + 3, rng.randint(0, n + 4)]))
+
+def rand_seq_history(rng, kind, n0, nops, wild=0.15):
+    init = [rng.randint(0, 9) for _ in range(n0)]; vals = list(init); ops = []
+    for _ in range(nops):
+        op = rand_sop(rng, kind, vals, wild); ops.append(op); sim_seq(kind, vals, op)
+    return init, ops, vals
+
+# keys that collide in the small slot arrays of Table (sizes 5, 11, 23, 53): displacement on insertion, back-shift on removal
+KEYPOOLS = [[0, 5, 10, 15, 20, 25, 55, 110, 1, 6, 11], [3, 14, 25, 36, 47, 58, 69, 4, 15, 26], [7, 30, 53, 76, 99, 122, 8, 31, 54, -16, -39],
+            list(range(-6, 14)), [2, 55, 108, 161, 214, 3, 56, 109, 4, 57, -51, -104]]
+def rand_keyed_history(rng, kind, n0, nops, wild=0.15):
+    pool = rng.choice(KEYPOOLS); init = rng.sample(pool, min(n0, len(pool))); keys = list(init); ops = []
+    for _ in range(nops):
+        r = rng.random()
+        if r < 0.45: op = ('set', rng.choice(pool))
+        elif r < 0.90: op = ('rem', rng.choice(keys) if keys and rng.random() > wild else rng.choice(pool))
+        else: op = ('resize', rng.choice([0, len(keys), len(keys) + 3, 30, 1] if rng.random() < 0.8 else [max(0, len(keys) - 1)]))
+        ops.append(op); sim_keyed(kind, keys, op)
+    return init, ops, keys
+
+def mut_base(rng, n, kind):
+    """a mutated container that holds exactly n elements after its history (no invalid mutation)"""
+    if kind in ('list', 'array'):
+        init, ops, vals = rand_seq_history(rng, kind, rng.randint(0, n + 3), rng.randint(1, 6), wild=0)
+        while len(vals) > n:
+            op = rng.choice([('pop',), ('pop_at', 0), ('pop_at', -1), ('pop_at', rng.randrange(len(vals))), ('rem', rng.choice(vals))])
+            ops.append(op); sim_seq(kind, vals, op)
+        while len(vals) < n:
+            op = rng.choice([('push', rng.randint(0, 9)), ('push_at', rng.randint(0, 9), 0)] + ([('push_at', rng.randint(0, 9), rng.randrange(len(vals)))] if vals else []))
+            ops.append(op); sim_seq(kind, vals, op)
+        return mut_str(kind, init, ops)
+    init, ops, keys = rand_keyed_history(rng, kind, rng.randint(0, n + 3), rng.randint(1, 6), wild=0)
+    pool = [k for k in range(-40, 200)]
+    while len(keys) > n: op = ('rem', rng.choice(keys)); ops.append(op); sim_keyed(kind, keys, op)
+    while len(keys) < n:
+        op = ('set', rng.choice([k for k in pool if k not in keys])); ops.append(op); sim_keyed(kind, keys, op)
+    return mut_str(kind, init, ops)
+
+def single_sops(kind, n):
+    """every single mutation of a List / Array holding 10 … 10+n-1 that differs in position or validity"""
+    ops = [('pop',), ('push', 99), ('concat', 1, 2), ('concat',)]
+    ops += [('pop_at', i) for i in range(-n - 1, n + 1)]
+    ops += [('push_at', 99, i) for i in range(-n - 2, n + 2)]
+    ops += [('rem', 10 + i) for i in range(n)] + [('rem', 5)]
+    ops += [('put', i, 77) for i in sorted({0, -1, n, n - 1, -n})]
+    ops += [('resize', m) for m in range(0, n + 3)]
+    return ops
+
 def fixed_base(kind, n):
     """deterministic container with n elements 10 … 10+n-1 (sweeps)"""
     vals = [10 + i for i in range(n)]
@@ -157,12 +269,14 @@ def sweep(kind, n, R, with_blank=False):
 
 class C11(Spec):
     id = 'C11'; engine = 'iter'; harness = 'h_iter'; driver = 'drv_iter'
-    generators = ()
+    generators = ('Table',)      # Cello/IterMut.lean runs the model of Table.c with the parameters read from src/Table.c
     harness_timeout = 600
     technique = ('Lean 4 proofs (induction over walks, lists, trees, Int arithmetic) about an executable state-machine model of the '
                  'iteration protocol that mirrors every Iter instance of the sources; differential check of that model against the real '
-                 'library (exhaustive Range and Slice parameter cubes, every container at every small length, random compositions); '
-                 'definition-based oracle in C on the same inputs')
+                 'library (exhaustive Range and Slice parameter cubes, every container at every small length, random compositions, '
+                 'containers MUTATED through the public interface before they are walked — with a white-box comparison of the List link '
+                 'words, the Array store, the Table slots); definition-based oracle in C on the same inputs, cursors checked before '
+                 'they are dereferenced')
     level_text = ('Theorems (Props/C11.lean, no bound on sizes or nesting): LawfulAs — foreach yields exactly the defined sequence and then '
                   'Terminal, the backward walk its reverse, len its length, get(i) its i-th element — for Array, List, Table (every pattern of '
                   'holes), Tree (every shape, through child/parent pointers), Tuple without a repeated object, Range for ALL (start, stop, step) '
@@ -172,14 +286,25 @@ class C11(Spec):
                   'walks inside the characterised parameter regions SliceRegionFwd/Bwd (C11_slice_partial). The full statements for Slice, '
                   'Zip backward and Tuple are refuted on concrete witnesses (known findings F11, F12, F13). The model is tied to the code on '
                   'every run: all 19^3 Range and 9*19^3 Slice parameter triples over Array/Tuple/Range (and smaller cubes over List, Table, '
-                  'Tree, Zip, Map) produce the same items, end markers, len and get in C and in Lean.')
+                  'Tree, Zip, Map) produce the same items, end markers, len and get in C and in Lean. '
+                  'MUTATED containers (Cello/IterMut.lean): List is modelled with its head / tail / next / prev link words and List_Link, '
+                  'List_Unlink, List_At statement by statement; C11_list_step_keeps_links / C11_list_history_keeps_links: EVERY history of '
+                  'push, pop, push_at, pop_at, rem, set, concat, resize keeps the doubly-linked invariant (prev(head) = next(tail) = NULL, '
+                  'prev(next(x)) = x, nitems = number of nodes) without ever touching NULL or a freed node, so (C11_list_mutated_lawful) the '
+                  'walk along next, the walk along prev, len and get are lawful after any history; the same for Array over its backing '
+                  'store with Reserve_More / Reserve_Less and the memmoves (C11_array_mutated_lawful), for Table after any history of '
+                  'set / rem / resize through the representation invariant of C02 (C11_table_mutated_lawful: len = nitems FIELD = number '
+                  'of bindings, keys each once), and for every Tree shape whose nitems field counts its nodes (C11_tree_field_lawful).')
     level_note = ('Trusted: Lean kernel; axioms propext/Quot.sound/Classical.choice; the hand-written model Cello/Iter.lean (validated by the '
                   'harness/driver comparison, which is testing); harness/h_iter.c and lean/Driver/Iter.lean. Inside known-finding territory '
                   '(Slice outside its region, backward Zip of unequal inputs, Tuple with a repeated object) the property is known to FAIL; '
                   'there the check only verifies that the implementation still behaves as the model predicts. Where the model says the C code '
                   'leaves the protocol (Terminal used as a cursor: `ub`) the implementation is executed in a forked worker and only the '
                   'items before that point are compared. int64 wrap-around of Range values and pointer identity of Filter/Map callables are '
-                  'not modelled. Tree iterates in DESCENDING key order (Tree_Set keeps the greater key on the left); C11 does not fix an order.')
+                  'not modelled. Tree iterates in DESCENDING key order (Tree_Set keeps the greater key on the left); C11 does not fix an order. '
+                  'A mutated Tree is modelled by a plain binary-search shape with the nitems field (rotations do not change the in-order '
+                  'sequence and the iteration theorem holds for every shape); Tree.c\'s own shapes are the subject of C03, and the harness '
+                  'checks the child / parent links, key order and nitems of the real tree after every history.')
     rule = ('op files of iterable expressions: (1) every container kind (Array, List, Tuple, white-box Table slot arrays with holes, white-box '
             'Tree shapes, Tree built with set, Range) at every length 0..40 (80 thorough) and some large; (2) every Range (start, stop, step) '
             'in [-9,9]^3 ([-20,20]^3 thorough), all constructor arities and `_`, plus random large ranges; (3) every Slice (start, stop, step) '
@@ -188,12 +313,24 @@ class C11(Spec):
             'alone for n <= 12, args in [-15,15]; (4) Zip of 1-4 random inputs of equal and unequal lengths, enumerate of every kind; '
             '(5) random compositions of views to depth 3 (4 thorough), half of them built with the stack macros: one family stays outside '
             'known-finding territory, one is arbitrary. Each op is walked with foreach and backwards, len and get(0..len-1) are read; harness '
-            'and driver must print the same line; the C oracle compares with the definition. non-trivial = the forward walk yields at least '
+            'and driver must print the same line; the C oracle compares with the definition. (6) MUTATED containers `(mut kind (init) op…)`: '
+            'every single mutation (pop, pop_at / push_at at every index incl. negative and out of range, rem of every element and of an absent '
+            'one, set, concat, resize to every size) of a List / Array of every length 0..6 (0..9 thorough), every pair of mutations for lengths '
+            '0..3 (0..5), random histories of up to 12 (40) mutations on List, Array, Table (keys colliding in the small slot arrays), Tree, '
+            'some with every prefix, growth to 60 / 120 elements and back; each as an `L` line (white-box layout: link words by position, store, '
+            'slots, outcome of every mutation) and as a `W` line, also under reverse / enumerate / slice / filter / map and as a base of the '
+            'random compositions of (5). non-trivial = the forward walk yields at least '
             '2 items or a walk does not end with Terminal (exception / worker crash / cap); distinct = distinct op text.')
-    trusted_base = ('lean/Cello/Iter.lean is a hand-written model of src/Iter.c and of the Iter/Len/Get instances of Array, List, Table, Tree, Tuple (no generated part)',
+    trusted_base = ('lean/Cello/Iter.lean is a hand-written model of src/Iter.c and of the Iter/Len/Get instances of Array, List, Table, Tree, Tuple',
+                    'lean/Cello/IterMut.lean is a hand-written model of the mutating functions of src/List.c (link words) and src/Array.c (backing store); '
+                    'mutated Tables go through lean/Cello/Table.lean with the parameters of CelloGen/Table.lean (engine C02), mutated Trees through a plain '
+                    'binary-search shape (Tree.c\'s shapes: engine C03)',
                     'harness/h_iter.c + lean/Driver/Iter.lean + vlib/props/c11.py compare (correspondence is testing)',
                     'the definition-based reference in harness/h_iter.c (ref_of) is the oracle of link (C)')
     assumptions = ('element counts and Range values stay below 2^63 (sizes are Nat, int64_t is Int in the model)',
+                   'mutations happen BEFORE a walk, through the public interface (push, pop, push_at, pop_at, rem, set, concat, resize) with arguments that '
+                   'are not the container itself; calloc / realloc do not fail; a freed List node is never handed out again while a stale pointer to it exists '
+                   '(addresses are not reused in the model)',
                    'the container is not modified during a walk; one walk at a time per iterable object (Range, Map and Zip keep the cursor inside the object)',
                    'the oracle treats as known (not as violations) deviations whose expression lies in known-finding territory: a Slice outside '
                    'SliceRegionFwd/Bwd (F11), a backward walk that involves a Zip of inputs of unequal length (F12), a Tuple holding one object twice (F13); '
@@ -260,6 +397,47 @@ class C11(Spec):
             d = rng.randint(1, 3 if quick else 4); n = rng.randint(0, 9)
             lines.append(rng.choice('WV') + ' ' + any_view(rng, d, n)[0])
         chunked('anyview', lines, 500)
+        # (6) containers MUTATED before they are iterated: layout (L) and walk (W, also under reverse / views) after the history
+        lines = []
+        for kind in ('list', 'array'):
+            for n in range(0, 7 if quick else 10):            # every single mutation at every position, every small length
+                init = [10 + i for i in range(n)]
+                for op in single_sops(kind, n):
+                    e = mut_str(kind, init, [op])
+                    lines += [f'L {e}', f'W {e}', f'W (reverse {e})']
+            for n in range(0, 4 if quick else 6):             # every pair of mutations
+                init = [10 + i for i in range(n)]
+                for op1 in single_sops(kind, n):
+                    v = list(init); sim_seq(kind, v, op1)
+                    for op2 in single_sops(kind, len(v)):
+                        if op2[0] == 'rem' and op2[1] >= 10: op2 = ('rem', v[op2[1] - 10]) if op2[1] - 10 < len(v) else op2
+                        e = mut_str(kind, init, [op1, op2])
+                        lines += [f'L {e}', f'W {e}']
+        chunked('mut_sweep', lines, 1500)
+        lines = []
+        for _ in range((1500 if quick else 40000) * boost):   # random histories, every prefix of some
+            kind = rng.choice(('list', 'list', 'array'))
+            init, ops, vals = rand_seq_history(rng, kind, rng.randint(0, 8), rng.randint(1, 12 if quick else 40))
+            e = mut_str(kind, init, ops)
+            lines += [f'L {e}', f"{rng.choice('WWV')} {rng.choice([e, e, f'(reverse {e})', f'(enum {e})', f'(slice {e})', f'(filter {e} 2 0)', f'(map {e} 2 1)'])}"]
+            if rng.random() < 0.15:
+                for k in range(1, len(ops)): lines += [f'L {mut_str(kind, init, ops[:k])}', f'W {mut_str(kind, init, ops[:k])}']
+        for _ in range((700 if quick else 15000) * boost):
+            kind = rng.choice(('table', 'tree'))
+            init, ops, keys = rand_keyed_history(rng, kind, rng.randint(0, 8), rng.randint(1, 14 if quick else 50))
+            e = mut_str(kind, init, ops)
+            lines += [f'L {e}', f"{rng.choice('WWV')} {rng.choice([e, e, f'(reverse {e})', f'(enum {e})', f'(filter {e} 2 0)'])}"]
+            if rng.random() < 0.15:
+                for k in range(1, len(ops)): lines += [f'L {mut_str(kind, init, ops[:k])}', f'W {mut_str(kind, init, ops[:k])}']
+        for kind, big in (('list', 60), ('array', 60), ('table', 120), ('tree', 120)):        # grow large, then shrink to nothing
+            ks = list(range(big)); rng.shuffle(ks)
+            if kind in ('list', 'array'):
+                ops = [('push', k) for k in ks] + [rng.choice([('pop_at', 0), ('pop',), ('pop_at', 1)]) for _ in range(big - 3)]
+            else:
+                ops = [('set', 7 * k) for k in ks] + [('rem', 7 * k) for k in ks[:big - 3]]
+            for cut in (big // 2, big, big + big // 2, len(ops)):
+                e = mut_str(kind, [], ops[:cut]); lines += [f'L {e}', f'W {e}', f'W (reverse {e})']
+        chunked('mut_random', lines, 500)
         return cs
     def nontrivial_items(self, case, c_out, m_out):
         ops = [l for l in case.lines if l and not l.startswith('#')]
@@ -281,8 +459,8 @@ class C11(Spec):
         for l in core.lines_with('O ', m_out):
             if '=ub' in l: acc['model_says_ub'] = acc.get('model_says_ub', 0) + 1
         for op in case.lines:
-            for h in ('slice', 'reverse', 'zip', 'enum', 'filter', 'map', 'range', 'array', 'list', 'tuple', 'table', 'tree', 'rtree'):
-                if op[2:].startswith('(' + h + ' ') or op[2:] == '(' + h + ')': acc['top_' + h] = acc.get('top_' + h, 0) + 1
+            for h in ('slice', 'reverse', 'zip', 'enum', 'filter', 'map', 'range', 'array', 'list', 'tuple', 'table', 'tree', 'rtree', 'mut list', 'mut array', 'mut table', 'mut tree'):
+                if op[2:].startswith('(' + h + ' ') or op[2:] == '(' + h + ')': acc['top_' + h.replace(' ', '_')] = acc.get('top_' + h.replace(' ', '_'), 0) + 1
             if op.startswith('V '): acc['built_with_stack_macros'] = acc.get('built_with_stack_macros', 0) + 1
         for l in core.lines_with('X ', c_out):
             sg = re.search(r'sig=(\S+)', l)
